@@ -22,6 +22,9 @@ ASSUME MpStream == \A a \in {0, 196, 255} : LET m1 == <<a>> m2 == <<>> m3 == <<a
                       /\ OutputOK("msgpack", <<m1, m2, m3>>, Msgpack(m1) \o Msgpack(m2) \o Msgpack(m3))
                       /\ ~OutputOK("msgpack", <<m1, m3>>, Msgpack(m1) \o <<196, 4>> \o m3)
                       /\ ~OutputOK("msgpack", <<m3>>, <<197, 0>> \o m3)
+ASSUME AsciiReadings == /\ \A a \in Bytes : AsciiOK(<<a>>, Ascii(<<a>>))
+                        /\ AsciiOK(<<233>>, <<233, 10>>) /\ ~AsciiOK(<<128>>, <<128, 10>>) /\ ~AsciiOK(<<173>>, <<173, 10>>)
+                        /\ ~AsciiOK(<<7>>, <<7, 10>>) /\ ~AsciiOK(<<65>>, <<46, 10>>) /\ ~AsciiOK(<<65>>, <<65>>)
 ASSUME RawAscii == /\ OutputOK("raw", <<<<1, 10>>, <<>>, <<0>>>>, <<1, 10, 0>>)
                    /\ OutputOK("ascii", <<<<1, 65>>, <<>>>>, <<46, 65, 10, 10>>)
                    /\ OutputOK("no", <<<<1>>>>, <<>>) /\ ~OutputOK("no", <<<<1>>>>, <<1>>)
